@@ -249,7 +249,7 @@ fn main() {
     let methods = ["GET", "POST", "PUT"];
     let paths = ["/", "/a", "/a%2Fb", "/A"];
     let keys = ["a", "ab", "A", "b"];
-    let vals: [Option<&str>; 5] = [None, Some(""), Some("c"), Some("bc"), Some("%20")];
+    let vals: [Option<&str>; 7] = [None, Some(""), Some("c"), Some("bc"), Some("%20"), Some("c=d"), Some("Yg==")];
     let mut pair_forms: Vec<String> = vec![String::new()]; // empty segment
     for k in keys {
         for v in vals {
@@ -385,7 +385,7 @@ fn main() {
     res.cov("exemption_predicate_cases", skip_evals);
     res.cov("exhaustive", true);
     res.cov("rule", format!(
-        "every request over methods {methods:?} x paths {paths:?} x every sequence of <= {maxq} query segments from {} forms (4 keys incl. a prefix pair and a case pair x {{valueless, empty, c, bc, %20}} + the empty segment) x every subset <= 3 of {} client headers (duplicate names via case, padded value, forged authorization header, empty value) x 3 bodies{}; distinct = distinct reference canonical strings", pair_forms.len(), hpool.len(), if thorough { "" } else { " (quick: two-parameter queries only with <= 1 client header)" }));
+        "every request over methods {methods:?} x paths {paths:?} x every sequence of <= {maxq} query segments from {} forms (4 keys incl. a prefix pair and a case pair x {{valueless, empty, c, bc, %20, c=d, Yg==}} + the empty segment) x every subset <= 3 of {} client headers (duplicate names via case, padded value, forged authorization header, empty value) x 3 bodies{}; distinct = distinct reference canonical strings", pair_forms.len(), hpool.len(), if thorough { "" } else { " (quick: two-parameter queries only with <= 1 client header)" }));
     res.cov("total_cases", total as u64);
     res.sample(cases[total / 3].json());
     res.sample(cases[total - 1].json());
